@@ -17,25 +17,32 @@ Fixpoint lastrec (l s : Z) (log : list logent) : option (list Z) :=
 Definition level_ok (lv : Z) (l0 : Z) (o : option (list Z)) : Prop :=
   match o with Some p => exists t, p = [t; lv] | None => lv = l0 end.
 
-Definition D (p0 l0 : Z -> Z) (w : fw) (en : fenv) : Prop :=
+(** the value field of a received/produced-part record [time; id; quality; value] *)
+Definition recval (p : list Z) : Z := match p with [_; _; _; v] => v | _ => 0 end.
+Fixpoint sumrec (l s : Z) (log : list logent) : Z :=
+  match log with [] => 0 | (l', s', p) :: r => (if (l' =? l) && (s' =? s) then recval p else 0) + sumrec l s r end.
+
+Definition D (p0 l0 v0 : Z -> Z) (w : fw) (en : fenv) : Prop :=
   forall d, d_produced (getd w d) = p0 d + cntrec L_SUPPLIED d (datalog en) /\
-            level_ok (d_level (getd w d)) (l0 d) (lastrec L_LEVEL d (datalog en)).
+            level_ok (d_level (getd w d)) (l0 d) (lastrec L_LEVEL d (datalog en)) /\
+            (d_kind (getd w d) = KSink -> d_value_received (getd w d) = v0 d + sumrec L_RECEIVED d (datalog en)).
 
 Section LogInv.
 Variable ws : nat -> Z.
-Variables p0 l0 : Z -> Z.
+Variables p0 l0 v0 : Z -> Z.
 Notation venv := (venv ws).
-Notation D := (D p0 l0).
+Notation D := (D p0 l0 v0).
 
 Definition logsame (en en' : fenv) : Prop :=
   forall d, cntrec L_SUPPLIED d (datalog en') = cntrec L_SUPPLIED d (datalog en) /\
-            lastrec L_LEVEL d (datalog en') = lastrec L_LEVEL d (datalog en).
+            lastrec L_LEVEL d (datalog en') = lastrec L_LEVEL d (datalog en) /\
+            sumrec L_RECEIVED d (datalog en') = sumrec L_RECEIVED d (datalog en).
 
 Lemma logsame_cmd en c en' : lemit_ok c -> apply_cmd ws en (to_cmd_f c) = Ok en' -> logsame en en'.
 Proof.
   intros Q H d. destruct c as [t p a act|lb sb pl|a|a|a]; cbn in H.
   - unfold schedule in H. destruct (t <? now en); [discriminate|]. injection H as <-. cbn. auto.
-  - injection H as <-. cbn. destruct Q as [Q1 Q2]. apply Z.eqb_neq in Q1, Q2. rewrite Q1, Q2. cbn. auto.
+  - injection H as <-. cbn. destruct Q as [Q1 [Q2 Q3]]. apply Z.eqb_neq in Q1, Q2, Q3. rewrite Q1, Q2, Q3. cbn. auto.
   - injection H as <-. cbn. auto.
   - injection H as <-. cbn. auto.
   - injection H as <-. cbn. auto.
@@ -45,29 +52,32 @@ Lemma logsame_cmds l : Forall lemit_ok l -> forall en en', apply_cmds ws en (map
 Proof.
   induction 1 as [|c l Q _ IH]; intros en en' H; cbn in H; [injection H as <-; intro d; auto|].
   destruct (apply_cmd ws en (to_cmd_f c)) as [en1|en1] eqn:E; [|discriminate].
-  intro d. destruct (IH en1 en' H d) as [A B]. destruct (logsame_cmd en c en1 Q E d) as [A1 B1]. rewrite A, B. auto.
+  intro d. destruct (IH en1 en' H d) as [A [B C]]. destruct (logsame_cmd en c en1 Q E d) as [A1 [B1 C1]]. rewrite A, B, C. auto.
 Qed.
 
 Definition LD (en0 : fenv) (w : fw) : Prop := okf w = true -> forall en, venv en0 w = Ok en -> D w en.
 
 Lemma D_logsame w w' en en' :
-  logsame en en' -> (forall d, d_produced (getd w' d) = d_produced (getd w d) /\ d_level (getd w' d) = d_level (getd w d)) ->
+  logsame en en' -> (forall d, d_produced (getd w' d) = d_produced (getd w d) /\ d_level (getd w' d) = d_level (getd w d) /\
+              d_value_received (getd w' d) = d_value_received (getd w d) /\ d_kind (getd w' d) = d_kind (getd w d)) ->
   D w en -> D w' en'.
 Proof.
-  intros LS F H d. destruct (LS d) as [A B]. destruct (F d) as [F1 F2]. destruct (H d) as [H1 H2]. rewrite A, B, F1, F2. auto.
+  intros LS F H d. destruct (LS d) as [A [B C]]. destruct (F d) as [F1 [F2 [F3 F4]]]. destruct (H d) as [H1 [H2 H3]]. rewrite A, B, C, F1, F2, F3, F4. auto.
 Qed.
 
 Lemma logsame_refl en : logsame en en.
 Proof. intro d. auto. Qed.
 
-Lemma fields_updd_lsafe w d f : lsafe f -> forall d', d_produced (getd (updd w d f) d') = d_produced (getd w d') /\ d_level (getd (updd w d f) d') = d_level (getd w d').
+Lemma fields_updd_lsafe w d f : lsafe f -> forall d', d_produced (getd (updd w d f) d') = d_produced (getd w d') /\ d_level (getd (updd w d f) d') = d_level (getd w d') /\
+  d_value_received (getd (updd w d f) d') = d_value_received (getd w d') /\ d_kind (getd (updd w d f) d') = d_kind (getd w d').
 Proof.
   intros LS d'. rewrite getd_updd. destruct ((d' =? d) && amem d (f_devs w)) eqn:C; [|auto].
   apply andb_true_iff in C. destruct C as [C _]. apply Z.eqb_eq in C. subst d'. apply LS.
 Qed.
 
 Lemma LD_quiet en0 w w' :
-  (forall d, d_produced (getd w' d) = d_produced (getd w d) /\ d_level (getd w' d) = d_level (getd w d)) ->
+  (forall d, d_produced (getd w' d) = d_produced (getd w d) /\ d_level (getd w' d) = d_level (getd w d) /\
+              d_value_received (getd w' d) = d_value_received (getd w d) /\ d_kind (getd w' d) = d_kind (getd w d)) ->
   (exists l, f_out w' = l ++ f_out w /\ Forall lemit_ok l) -> (okf w' = true -> okf w = true) -> LD en0 w -> LD en0 w'.
 Proof.
   intros F [l [O Q]] OK L OKF en' V. rewrite (venv_app ws en0 w w' l O) in V. destruct (venv en0 w) as [en|en] eqn:V0; [|discriminate].
@@ -75,8 +85,16 @@ Proof.
   apply (logsame_cmds (rev l)); [apply Forall_rev, Q|exact V].
 Qed.
 
-Lemma supplied_produced nw v x : d_produced (t_supplied nw v x) = 1 + d_produced x /\ d_level (t_supplied nw v x) = d_level x.
-Proof. unfold t_supplied, dev_add_value. destruct (- v =? 0); split; reflexivity. Qed.
+Lemma supplied_fields nw v x : d_produced (t_supplied nw v x) = 1 + d_produced x /\ d_level (t_supplied nw v x) = d_level x /\
+  d_value_received (t_supplied nw v x) = d_value_received x /\ d_kind (t_supplied nw v x) = d_kind x.
+Proof. unfold t_supplied, dev_add_value. destruct (- v =? 0); repeat split; reflexivity. Qed.
+
+Lemma accept_sink_fields nw it x : d_produced (t_accept_sink nw it x) = d_produced x /\ d_level (t_accept_sink nw it x) = d_level x /\
+  d_value_received (t_accept_sink nw it x) = item_value it + d_value_received x /\ d_kind (t_accept_sink nw it x) = d_kind x.
+Proof.
+  unfold t_accept_sink, t_accept, dev_set_wait, dev_add_value. cbv zeta.
+  repeat match goal with |- context[if ?b then _ else _] => destruct b | |- context[match d_wait_since ?y with _ => _ end] => destruct (d_wait_since y) end; repeat split; reflexivity.
+Qed.
 
 (** the record that goes with a counter change *)
 Lemma LD_record en0 w w1 lb d pl :
@@ -87,9 +105,33 @@ Proof.
   rewrite (venv_same ws en0 w w1 O) in V0. apply STEP. apply (L ltac:(unfold okf in *; cbn in OKF; rewrite <- E; exact OKF) en V0).
 Qed.
 
+(** one record about device [d] together with the change of [d] it reports: the three links survive when the supplied-parts counter moves
+    with a supplied record only, a level record carries the new level, and a sink's received value moves by the recorded value *)
+Lemma D_rec w w1 en d lb pl :
+  D w en -> (forall d', d' <> d -> getd w1 d' = getd w d') ->
+  let x := getd w d in let x' := getd w1 d in
+  d_kind x' = d_kind x ->
+  d_produced x' = d_produced x + (if lb =? L_SUPPLIED then 1 else 0) ->
+  (if lb =? L_LEVEL then exists t, pl = [t; d_level x'] else d_level x' = d_level x) ->
+  (d_kind x = KSink -> d_value_received x' = d_value_received x + (if lb =? L_RECEIVED then recval pl else 0)) ->
+  D (data w1 lb d pl) (add_data en lb d pl).
+Proof.
+  intros H OTH x x' K P LV VR d'.
+  change (getd (data w1 lb d pl) d') with (getd w1 d'). cbn [datalog add_data cntrec lastrec sumrec].
+  destruct (H d') as [H1 [H2 H3]]. destruct (Z.eqb_spec d d') as [<-|N].
+  - rewrite !andb_true_r. fold x x'. fold x in H1, H2, H3. split; [|split].
+    + rewrite P, H1. destruct (lb =? L_SUPPLIED); lia.
+    + destruct (lb =? L_LEVEL); [exact LV|rewrite LV; exact H2].
+    + intro KS. rewrite K in KS. rewrite (VR KS), (H3 KS). destruct (lb =? L_RECEIVED); lia.
+  - rewrite !andb_false_r. rewrite (OTH d' (not_eq_sym N)). cbv iota. rewrite !Z.add_0_l. auto.
+Qed.
+
+Lemma updd_other w d f d' : d' <> d -> getd (updd w d f) d' = getd w d'.
+Proof. intro N. rewrite getd_updd. apply Z.eqb_neq in N. rewrite N. reflexivity. Qed.
+
 Theorem lstep_LD nw en0 w w' : lstep nw w w' -> LD en0 w -> LD en0 w'.
 Proof.
-  intros S L. destruct S as [w d f LS|w c EO|w w' DV O OK|w w' DEAD|w pid f|w d v id AM|w d it1|w d].
+  intros S L. destruct S as [w d f LS|w c EO|w w' DV O OK|w w' DEAD|w pid f|w d v id AM|w d it1|w d|w d it1 NK|w d it1 AM KS].
   - apply (LD_quiet en0 w); [apply fields_updd_lsafe, LS|exists []; split; [reflexivity|constructor]|auto|exact L].
   - apply (LD_quiet en0 w); [intro; auto|exists [c]; split; [reflexivity|constructor; [exact EO|constructor]]|auto|exact L].
   - apply (LD_quiet en0 w); [intro d; rewrite (getd_other_fields w w' d DV); auto|exact O|exact OK|exact L].
@@ -97,30 +139,48 @@ Proof.
   - apply (LD_quiet en0 w); [|exists []; split; [reflexivity|constructor]|auto|exact L].
     intro d. unfold upd_part_everywhere, getd. cbn. induction (f_devs w) as [|[k y] l IH]; cbn; [auto|]. destruct (d =? k); [cbn; auto|exact IH].
   - (* a part supplied: counter and record together *)
-    apply (LD_record en0 w); [exact L|reflexivity|reflexivity|]. intros en H d'.
-    change (getd (data ?a ?b ?c ?e) d') with (getd a d'). cbn [datalog add_data cntrec lastrec]. rewrite Z.eqb_refl. cbn [andb].
-    replace (L_SUPPLIED =? L_LEVEL) with false by reflexivity. cbn [andb].
-    destruct (H d') as [H1 H2]. rewrite getd_updd. destruct (Z.eqb_spec d' d) as [->|N].
-    + rewrite AM, Z.eqb_refl. cbn [andb]. destruct (supplied_produced nw v (getd w d)) as [E1 E2]. rewrite E1, E2. split; [lia|exact H2].
-    + cbn [andb]. assert (E : (d =? d') = false) by (apply Z.eqb_neq; congruence). rewrite E. split; [lia|exact H2].
+    apply (LD_record en0 w); [exact L|reflexivity|reflexivity|]. intros en H.
+    apply (D_rec w); [exact H|intros; apply updd_other; assumption|..]; cbv zeta; rewrite getd_updd, Z.eqb_refl, AM; cbn [andb].
+    all: destruct (supplied_fields nw v (getd w d)) as [E1 [E2 [E3 E4]]].
+    + exact E4.
+    + change (L_SUPPLIED =? L_SUPPLIED) with true. cbv iota. rewrite E1. lia.
+    + change (L_SUPPLIED =? L_LEVEL) with false. cbv iota. exact E2.
+    + intros _. change (L_SUPPLIED =? L_RECEIVED) with false. cbv iota. rewrite E3. lia.
   - (* a buffer takes a part in: level and record together *)
-    cbv zeta. apply (LD_record en0 w); [exact L|reflexivity|reflexivity|]. intros en H d'.
-    change (getd (data ?a ?b ?c ?e) d') with (getd a d'). cbn [datalog add_data cntrec lastrec]. rewrite Z.eqb_refl. cbn [andb].
-    replace (L_LEVEL =? L_SUPPLIED) with false by reflexivity. cbn [andb].
-    destruct (H d') as [H1 H2]. destruct (Z.eqb_spec d d') as [<-|N].
-    + split; [|eexists; reflexivity].
-      rewrite (getd_updd_field d_produced w d (t_accept_buffer nw it1) d); [lia|].
-      intro y. unfold t_accept_buffer, t_accept, dev_set_wait. reflexivity.
-    + rewrite getd_updd. assert (E : (d' =? d) = false) by (apply Z.eqb_neq; congruence). rewrite E. cbn [andb]. split; [lia|exact H2].
+    cbv zeta. apply (LD_record en0 w); [exact L|reflexivity|reflexivity|]. intros en H.
+    assert (FS : forall {X} (pr : dev -> X), (forall y, pr (t_accept_buffer nw it1 y) = pr y) ->
+                 pr (getd (updd w d (t_accept_buffer nw it1)) d) = pr (getd w d)) by (intros X pr Q; apply getd_updd_field, Q).
+    apply (D_rec w); [exact H|intros; apply updd_other; assumption|..]; cbv zeta.
+    + apply FS. intro y. unfold t_accept_buffer, t_accept, dev_set_wait. destruct (d_wait_since y); reflexivity.
+    + change (L_LEVEL =? L_SUPPLIED) with false. cbv iota. rewrite Z.add_0_r. apply FS. intro y. reflexivity.
+    + change (L_LEVEL =? L_LEVEL) with true. cbv iota. eexists; reflexivity.
+    + intros _. change (L_LEVEL =? L_RECEIVED) with false. cbv iota. rewrite Z.add_0_r. apply FS. intro y. reflexivity.
   - (* the head of a buffer leaves: level and record together *)
-    cbv zeta. apply (LD_record en0 w); [exact L|reflexivity|reflexivity|]. intros en H d'.
-    change (getd (data ?a ?b ?c ?e) d') with (getd a d'). cbn [datalog add_data cntrec lastrec]. rewrite Z.eqb_refl. cbn [andb].
-    replace (L_LEVEL =? L_SUPPLIED) with false by reflexivity. cbn [andb].
-    destruct (H d') as [H1 H2]. destruct (Z.eqb_spec d d') as [<-|N].
-    + split; [|eexists; reflexivity].
-      rewrite (getd_updd_field d_produced w d (t_buf_pop nw) d); [lia|].
-      intro y. unfold t_buf_pop. destruct (d_buf y) as [|[? ?] ?]; [reflexivity|]. destruct (0 <? _); reflexivity.
-    + rewrite getd_updd. assert (E : (d' =? d) = false) by (apply Z.eqb_neq; congruence). rewrite E. cbn [andb]. split; [lia|exact H2].
+    cbv zeta. apply (LD_record en0 w); [exact L|reflexivity|reflexivity|]. intros en H.
+    assert (FS : forall {X} (pr : dev -> X), (forall y, pr (t_buf_pop nw y) = pr y) ->
+                 pr (getd (updd w d (t_buf_pop nw)) d) = pr (getd w d)) by (intros X pr Q; apply getd_updd_field, Q).
+    assert (TB : forall {X} (pr : dev -> X) y, (forall g b, pr (y <| d_level ::= g |> <| d_buf := b |>) = pr y) -> pr (t_buf_pop nw y) = pr y).
+    { intros X pr y Q. unfold t_buf_pop. destruct (d_buf y) as [|[? ?] ?]; [reflexivity|]. destruct (0 <? _); first [reflexivity|apply Q]. }
+    apply (D_rec w); [exact H|intros; apply updd_other; assumption|..]; cbv zeta.
+    + apply FS. intro y. apply TB. reflexivity.
+    + change (L_LEVEL =? L_SUPPLIED) with false. cbv iota. rewrite Z.add_0_r. apply FS. intro y. apply TB. reflexivity.
+    + change (L_LEVEL =? L_LEVEL) with true. cbv iota. eexists; reflexivity.
+    + intros _. change (L_LEVEL =? L_RECEIVED) with false. cbv iota. rewrite Z.add_0_r. apply FS. intro y. apply TB. reflexivity.
+  - (* a received-part record of a device that is not a sink *)
+    unfold rec_part. apply (LD_record en0 w); [exact L|reflexivity|reflexivity|]. intros en H.
+    apply (D_rec w); [exact H|reflexivity|..]; cbv zeta.
+    + reflexivity.
+    + change (L_RECEIVED =? L_SUPPLIED) with false. cbv iota. lia.
+    + change (L_RECEIVED =? L_LEVEL) with false. cbv iota. reflexivity.
+    + intro KS. contradiction.
+  - (* a sink takes a part in: counters and record together *)
+    unfold rec_part. apply (LD_record en0 w); [exact L|reflexivity|reflexivity|]. intros en H.
+    apply (D_rec w); [exact H|intros; apply updd_other; assumption|..]; cbv zeta; rewrite getd_updd, Z.eqb_refl, AM; cbn [andb].
+    all: destruct (accept_sink_fields nw it1 (getd w d)) as [E1 [E2 [E3 E4]]].
+    + exact E4.
+    + change (L_RECEIVED =? L_SUPPLIED) with false. cbv iota. rewrite E1. lia.
+    + change (L_RECEIVED =? L_LEVEL) with false. cbv iota. exact E2.
+    + intros _. change (L_RECEIVED =? L_RECEIVED) with true. cbv iota. cbn [recval]. rewrite E3. lia.
 Qed.
 
 Theorem RL_LD nw en0 w w' : RL nw w w' -> LD en0 w -> LD en0 w'.
@@ -182,26 +242,27 @@ Variable sc : fl_scn.
 Notation wsd := (wgen (fq_seed sc) (fq_mod sc)).
 Notation p0 := (fun d => d_produced (getd (fq_world sc) d)).
 Notation l0 := (fun d => d_level (getd (fq_world sc) d)).
+Notation v0 := (fun d => d_value_received (getd (fq_world sc) d)).
 
-Theorem reach_in_DS s : f_out (fq_world sc) = [] -> reach_in sc s -> DS p0 l0 s.
+Theorem reach_in_DS s : f_out (fq_world sc) = [] -> reach_in sc s -> DS p0 l0 v0 s.
 Proof.
   intro O0. induction 1 as [s WF E|s o s' _ IH E|s t k p s' _ IH E|s s' _ IH E|s d en' _ IH E|s d ups s' _ IH E].
   - unfold do_fxop in E. cbn [fst snd] in E.
-    apply (DS_fin wsd p0 l0 (fq_world sc) init_env (init_world (fl_fuel (fq_world sc)) (now (init_env (A:=fact))) (fq_world sc)) s O0); [|apply RL_init_world|exact E].
-    intro d. cbn. split; [lia|reflexivity].
+    apply (DS_fin wsd p0 l0 v0 (fq_world sc) init_env (init_world (fl_fuel (fq_world sc)) (now (init_env (A:=fact))) (fq_world sc)) s O0); [|apply RL_init_world|exact E].
+    intro d. cbn. split; [lia|split; [reflexivity|intros _; lia]].
   - destruct IH as [O H]. unfold do_fxop in E.
-    apply (DS_fin wsd p0 l0 (fst s) (snd s) (run_uop (fl_fuel (fst s)) (now (snd s)) (fst s) o) s' O H); [apply RL_run_uop|exact E].
+    apply (DS_fin wsd p0 l0 v0 (fst s) (snd s) (run_uop (fl_fuel (fst s)) (now (snd s)) (fst s) o) s' O H); [apply RL_run_uop|exact E].
   - destruct IH as [O H]. unfold do_fxop in E.
     destruct (apply_cmd wsd (snd s) (CSched t p (-5) (AUser k))) as [en'|en'] eqn:AC; [|discriminate].
     injection E as <-. cbn [fst snd]. split; [exact O|].
-    apply (D_same p0 l0 (fst s) (fst s) (snd s) en'); [reflexivity| |exact H].
+    apply (D_same p0 l0 v0 (fst s) (fst s) (snd s) en'); [reflexivity| |exact H].
     cbn in AC. unfold schedule in AC. destruct (t <? now (snd s)); [discriminate|]. injection AC as <-. reflexivity.
   - eapply step_DS; eauto.
   - destruct IH as [O H]. cbn [fst snd]. split; [exact O|].
-    apply (D_same p0 l0 (fst s) (fst s) (snd s) en'); [reflexivity| |exact H].
+    apply (D_same p0 l0 v0 (fst s) (fst s) (snd s) en'); [reflexivity| |exact H].
     unfold start_run, schedule in E. cbn in E. destruct (now (snd s) + d <? now (snd s)); [discriminate|]. injection E as <-. reflexivity.
   - destruct IH as [O H]. unfold do_fxop in E.
-    apply (DS_fin wsd p0 l0 (fst s) (snd s) (late_create (fl_fuel (fst s)) (now (snd s)) (fst s) d ups) s' O H); [apply RL_late_create|exact E].
+    apply (DS_fin wsd p0 l0 v0 (fst s) (snd s) (late_create (fl_fuel (fst s)) (now (snd s)) (fst s) d ups) s' O H); [apply RL_late_create|exact E].
 Qed.
 
 (** * C15: counters and last records *)
@@ -216,6 +277,12 @@ Theorem last_level_record_is_level s d :
   | Some p => exists t, p = [t; d_level (getd (fst s) d)]
   | None => d_level (getd (fst s) d) = d_level (getd (fq_world sc) d)
   end.
+Proof. intros O HR. destruct (reach_in_DS s O HR) as [_ H]. apply H. Qed.
+
+(** a sink's received-value counter is the sum of the values its received-part records carry (plus its initial value) *)
+Theorem sink_value_is_sum_of_records s d :
+  f_out (fq_world sc) = [] -> reach_in sc s -> d_kind (getd (fst s) d) = KSink ->
+  d_value_received (getd (fst s) d) = d_value_received (getd (fq_world sc) d) + sumrec L_RECEIVED d (datalog (snd s)).
 Proof. intros O HR. destruct (reach_in_DS s O HR) as [_ H]. apply H. Qed.
 
 End LogReach.
